@@ -41,8 +41,8 @@ def check(ctx: Ctx) -> None:
         v = r.ast.value
         ok = isinstance(v, ast.Await) and any(g.ast is v for g in gets)
         if not ok and isinstance(v, ast.Name):
-            vals = [h[1] for h in ctx.an.scope(aenter).defs.get(v.id, []) if h[0] == "assign"]
-            ok = len(vals) == 1 and isinstance(vals[0], ast.Await) and any(g.ast is vals[0] for g in gets)
+            rv = ctx.vals.resolve(aenter, v)  # also `item: _T = await self.get()`
+            ok = isinstance(rv, ast.Await) and any(g.ast is rv for g in gets)
         rep.ob("R20.1", "the block receives the item that was taken", ok, node=r)
     others = ctx.nodes(aenter, lambda n: n.suspends and n not in gets)
     rep.ob("R20.1", "__aenter__ has no other suspension step (an item taken is always handed to the block)", not others, func=aenter, construct=others[0] if others else "only the get suspends")
